@@ -2,6 +2,7 @@ INIT Init
 NEXT Next
 INVARIANT OrderIndependent
 CONSTANTS
+ SkipMatched = TRUE
  Recheck = FALSE
  Emit = FALSE
 CHECK_DEADLOCK FALSE
